@@ -11,7 +11,7 @@
    (=> handle_system_error + shutdown of the whole runtime) is the output OCrash. *)
 From Coq Require Import List Arith Bool.
 Import ListNotations.
-From BQ Require Import rt.ServerM rt.ServerThm rt.ServerCur.
+From BQ Require Import rt.ServerM rt.ServerThm rt.ServerCur rt.ServerSend.
 
 (* ------------------------------------------------------------ tables invariant *)
 (* For every well-formed event list (any number of clients; requests naming ANY id; RESULT /
@@ -145,6 +145,36 @@ Theorem C13_cancelled_forgotten : forall sp c t, own_open sp c t = true ->
 Proof.
   intros sp c t O. simpl. rewrite O. simpl. unfold upd. rewrite !Nat.eqb_refl. auto.
 Qed.
+
+(* ------------------------------------------------------- the sender thread *)
+(* ServerBase.send_outgoing (rt/ServerSend.v): with the `if outgoing[0].closed: continue` test the
+   node's only sender thread survives every queue; what it writes is exactly the queued messages
+   for connections that are open, in queue order (so every later answer to another client still
+   goes out); a message for a connection this node has closed is skipped and changes nothing. *)
+Theorem C13_sender_never_stops : forall q sd, alive sd = true -> alive (send_all true sd q) = true.
+Proof. exact sender_never_stops. Qed.
+
+Theorem C13_sender_sends_open_in_order : forall q sd, alive sd = true ->
+  sent (send_all true sd q) = sent sd ++ filter (fun m => ServerSend.is_open (conn sd (fst m))) q.
+Proof. exact sent_is_filter. Qed.
+
+Theorem C13_closed_is_skipped : forall sd m, alive sd = true -> conn sd (fst m) = CLocal ->
+  send_step true sd m = sd.
+Proof. exact closed_is_skipped. Qed.
+
+(* without the test one message for a locally closed connection kills the sender (OSError is not
+   caught) and a later message for an open connection is never written *)
+Theorem C13_sender_without_guard_refuted :
+  exists sd q m, alive sd = true /\ In m q /\ conn sd (fst m) = COpen
+    /\ alive (send_all false sd q) = false /\ ~ In m (sent (send_all false sd q)).
+Proof. exact sender_without_guard_refuted. Qed.
+
+Example C13_sender_nonvacuous :
+  let sd := mkSender true (fun c => match c with 0 => CLocal | 1 => CPeerGone | _ => COpen end) [] [] in
+  sent (send_all true sd [(0, 1); (2, 2); (1, 3); (3, 4); (1, 5); (2, 6)]) = [(2, 2); (3, 4); (2, 6)]
+  /\ dropped (send_all true sd [(0, 1); (2, 2); (1, 3); (3, 4); (1, 5); (2, 6)]) = [1]
+  /\ alive (send_all true sd [(0, 1); (2, 2); (1, 3); (3, 4); (1, 5); (2, 6)]) = true.
+Proof. vm_compute. tauto. Qed.
 
 (* ------------------------------------------------------------------ non-vacuity *)
 Definition ex_hist : list event :=
